@@ -33,15 +33,28 @@ func main() {
 		fmt.Fprintln(os.Stderr, "need -out")
 		os.Exit(2)
 	}
-	b, err := os.ReadFile(filepath.Join(*verif, "hooks", "hooks.json"))
-	if err != nil {
-		fmt.Fprintln(os.Stderr, err)
-		os.Exit(2)
-	}
+	// hooks/<tag>/<file>.go, each carrying a line "//verif:dst <path relative to the repo>"
 	var files []hookFile
-	if err := json.Unmarshal(b, &files); err != nil {
-		fmt.Fprintln(os.Stderr, "hooks.json:", err)
-		os.Exit(2)
+	matches, _ := filepath.Glob(filepath.Join(*verif, "hooks", "*", "*.go"))
+	for _, m := range matches {
+		b, err := os.ReadFile(m)
+		if err != nil {
+			fmt.Fprintln(os.Stderr, err)
+			os.Exit(2)
+		}
+		dst := ""
+		for _, line := range strings.Split(string(b), "\n") {
+			if strings.HasPrefix(line, "//verif:dst ") {
+				dst = strings.TrimSpace(strings.TrimPrefix(line, "//verif:dst "))
+				break
+			}
+		}
+		if dst == "" {
+			fmt.Fprintln(os.Stderr, "hook file without //verif:dst line:", m)
+			os.Exit(2)
+		}
+		rel, _ := filepath.Rel(filepath.Join(*verif, "hooks"), m)
+		files = append(files, hookFile{Tag: filepath.Base(filepath.Dir(m)), Src: rel, Dst: dst})
 	}
 	want := map[string]bool{}
 	for _, h := range strings.Fields(*hooks) {
